@@ -645,13 +645,17 @@ def cells(prop, tier):
                             body='H.scen_c02([5, 5, s2], -1, True, 2, csdur, %d, p1, q1, 0, 0, 1, 1, (0, 0, 1))' % pr,
                             tier='thorough', timeout=3000, family='c02', weight=4))
         # one OS unlock call fails while a thread goes through two rounds on its object and another object contends
-        out.append(Cell(name='c02_unlock_fault', sig='styles: List[int], fault: int, prio_idx: int, p1: int',
-                        pre=['len(styles) == 4 and all(0 <= s <= 1 for s in styles) and 0 <= fault <= 1 and 0 <= prio_idx <= 1 and 0 <= p1 <= 140'],
-                        body='H.scen_c02(styles, -1, False, 2, 1, prio_idx, p1, 0, 0, 0, 2, 1, (0, 1), fault)', tier=q, timeout=900, family='c02', weight=4))
+        for st in ((0, 0, 0, 0), (1, 0, 1, 0)):
+            for fault in (0, 1):
+                isq = st == (0, 0, 0, 0) or fault == 0
+                out.append(Cell(name='c02_unlock_fault_%s_f%d' % (''.join(map(str, st)), fault), sig='prio_idx: int, p1: int',
+                                pre=['0 <= prio_idx <= 1 and 0 <= p1 <= 140'],
+                                body='H.scen_c02(%r, -1, False, 2, 1, prio_idx, p1, 0, 0, 0, 2, 1, (0, 1), %d)' % (list(st), fault),
+                                tier=q if isq else 'thorough', timeout=900, family='c02', weight=5))
         # a holder object is dropped (collected) while holding; a second contender is already blocked, a third arrives later
         for pr in (0, 3):
             out.append(Cell(name='c02_3t_dropped_holder_prio%d' % pr, sig='s1: int, s2: int, p1: int, q1: int',
-                            pre=['0 <= s1 <= 1 and 0 <= s2 <= 1 and 0 <= p1 <= 120 and 0 <= q1 <= 1'],
+                            pre=['s1 == 0 and 0 <= s2 <= 1 and 0 <= p1 <= 120 and 0 <= q1 <= %d' % (1 if pr == 0 else 0)],
                             body='H.scen_c02([6, s1, s2], -1, False, 3, 2, %d, p1, q1, 0, 0, 1, 1, (0, 1, 2), -1, (0, 0, 3))' % pr, tier=q, timeout=900, family='c02', weight=4))
         out.append(Cell(name='c02_3t_nested_prio0_quick', sig='p1: int, q1: int', pre=['0 <= p1 <= 170 and 0 <= q1 <= 1'],
                         body='H.scen_c02([5, 5, 0], -1, True, 2, 1, 0, p1, q1, 0, 0, 1, 1, (0, 0, 1))', tier=q, timeout=900, family='c02', weight=4))
@@ -746,9 +750,13 @@ def cells(prop, tier):
                     out.append(Cell(name='c13_prog%d_re%d_surv%d' % (prog, re, ns), sig='kill_after: int, csdur: int, prio_idx: int',
                                     pre=['1 <= kill_after <= 60 and 0 <= csdur <= 1 and 0 <= prio_idx <= %d' % ns],
                                     body='H.scen_c13(%d, kill_after, %d, csdur, prio_idx, %r, -1)' % (prog, ns, re), tier=q, timeout=600, family='c13', weight=3 + ns))
-        out.append(Cell(name='c13_polling_waiter', sig='kill_after: int, hold: int, poll: int, prio_idx: int',
+        for hold in (5, 20):
+            out.append(Cell(name='c13_polling_waiter_hold%d' % hold, sig='kill_after: int, prio_idx: int',
+                            pre=['1 <= kill_after <= 45 and 0 <= prio_idx <= 1'],
+                            body='H.scen_c13_waiter(kill_after, %d, 1, prio_idx)' % hold, tier=q, timeout=600, family='c13', weight=4))
+        out.append(Cell(name='c13_polling_waiter_full', sig='kill_after: int, hold: int, poll: int, prio_idx: int',
                         pre=['1 <= kill_after <= 45 and 3 <= hold <= 40 and 1 <= poll <= 2 and 0 <= prio_idx <= 1'],
-                        body='H.scen_c13_waiter(kill_after, hold, poll, prio_idx)', tier=q, timeout=600, family='c13', weight=4))
+                        body='H.scen_c13_waiter(kill_after, hold, poll, prio_idx)', tier='thorough', timeout=3000, family='c13', weight=4))
         out.append(Cell(name='twin_c13', sig='kill_after: int', pre=['1 <= kill_after <= 40'], body='H.twin_c13(kill_after)',
                         expect='refute', timeout=200, family='c13'))
         if tier == 'thorough':
@@ -757,6 +765,8 @@ def cells(prop, tier):
                     out.append(Cell(name='c13_2surv_prog%d_tmo%s' % (prog, str(tmo).replace('-', 'm')), sig='kill_after: int, csdur: int, prio_idx: int, reentrant: bool',
                                     pre=['1 <= kill_after <= 90 and 0 <= csdur <= 2 and 0 <= prio_idx <= 23'],
                                     body='H.scen_c13(%d, kill_after, 2, csdur, prio_idx, reentrant, %d)' % (prog, tmo), tier='thorough', timeout=4000, family='c13', weight=3))
+    if tier != 'thorough':
+        out = [c for c in out if c.tier == 'quick']
     return out
 
 
